@@ -52,6 +52,40 @@ def _knapsack_selection_is_the_dp_s(ctx: Ctx, k):
     ctx.ob("C16-O2", "R4 SIGN-UNIT", k, "no decision is taken on the caller's unsigned `values` (the DP compares sign-adjusted values only)", not raw, f"`{ast.unparse(raw[0])[:60]}`: for minimize the sign is the other way round" if raw else "", node=raw[0] if raw else k.node)
 
 
+def _product_factors(e):
+    out, stack_ = [], [e]
+    while stack_:
+        x = stack_.pop()
+        if isinstance(x, ast.BinOp) and isinstance(x.op, ast.Mult):
+            stack_ += [x.left, x.right]
+        else:
+            out.append(x)
+    return out
+
+
+def _recheck_allowance(ctx: Ctx, k, site):
+    """the slack of the weight re-check is the float error of the sum it checks: 0 for unscaled (integral) data, else
+    capacity * machine epsilon * at most the number of summands.  A fixed 1e-9 accepted [10.0000000005] for capacity
+    10 (ledger row 62)."""
+    al = [n for n in own_nodes(k.node) if isinstance(n, (ast.Assign, ast.AugAssign)) and ast.unparse(n.targets[0] if isinstance(n, ast.Assign) else n.target) == "allowance"]
+    ok = len(al) == 1 and isinstance(al[0], ast.Assign) and isinstance(al[0].value, ast.IfExp)
+    if ok:
+        v_ = al[0].value
+        zero_arm, scaled, test = v_.body, v_.orelse, ast.unparse(v_.test)
+        if test in ("scale != 1.0", "1.0 != scale"):
+            zero_arm, scaled, test = scaled, zero_arm, "scale == 1.0"
+        ok = test in ("scale == 1.0", "1.0 == scale") and ast.unparse(zero_arm) in ("0.0", "0") and isinstance(scaled, ast.BinOp) and isinstance(scaled.op, ast.Mult)
+        if ok:
+            factors = _product_factors(scaled)
+            txt_ = sorted(ast.unparse(e_) for e_ in factors if not isinstance(e_, ast.Constant))
+            lits_ = [e_.value for e_ in factors if isinstance(e_, ast.Constant) and isinstance(e_.value, (int, float))]
+            tiny = ("sys.float_info.epsilon" in txt_) != (len(lits_) == 1 and 0 < lits_[0] <= 1e-15)
+            rest_ = [t_ for t_ in txt_ if t_ != "sys.float_info.epsilon"]
+            sel = _sel_name(k)
+            ok = tiny and rest_ in (["capacity"], sorted(["capacity", f"len({sel})"]), sorted(["capacity", "n"]), sorted(["capacity", "len(weights)"]))
+    ctx.ob("C16-O1", "R14 GATE", k, "the slack of the weight re-check is 0 for unscaled data and otherwise the float error of the sum: capacity times machine epsilon (or a literal of at most 1e-15), at most times the number of items", ok, "a wider slack lets a selection through whose weight exceeds the capacity (a fixed 1e-9 accepted weight 10.0000000005 for capacity 10 and called it OPTIMAL)", node=al[0] if al else site)
+
+
 def run(ctx: Ctx):
     k = ctx.func("knapsack", "solve_knapsack")
     cfg = cfg_of(k.node)
@@ -67,8 +101,9 @@ def run(ctx: Ctx):
             ctx.ob("C16-O1", "R14 GATE", k, f"Result#{i}: an OPTIMAL empty selection is published only for an empty item list", ok, f"guards {sorted(at)}: the items were never examined (zero-weight items would fit)", node=s.call)
         elif "OPTIMAL" in s.statuses:
             n_dp += 1
-            gate = atom_of("total_weight <= capacity + 1e-09")
+            gate = atom_of("total_weight <= capacity + allowance")
             ok = gate in at
+            ctx.step(_recheck_allowance, k, s.call)
             tw = [n for n in own_nodes(k.node) if isinstance(n, ast.Assign) and ast.unparse(n.targets[0]) == "total_weight"]
             ok2 = len(tw) == 1 and ast.unparse(tw[0].value) == f"sum((weights[i] for i in {_sel_name(k)}))"
             ctx.ob("C16-O1", "R14 GATE", k, f"Result#{i}: DP OPTIMAL is published only after the weight re-check passed", ok, f"guards {sorted(at)}", node=s.call)
@@ -346,7 +381,31 @@ def _v_no_allowance(tree):
     M.replace_expr(g, lambda e: isinstance(e, ast.IfExp) and M.src_is(e.test, "integral"), M.expr("0.0"))
 
 
+def _v_ks_fixed_slack(tree):
+    g = M.find_func(tree, "solve_knapsack")
+    M.replace_expr(g, lambda e: isinstance(e, ast.IfExp) and M.src_is(e.test, "scale == 1.0"), M.expr("1e-09"))
+
+
+def _v_ks_slack_for_integers(tree):
+    g = M.find_func(tree, "solve_knapsack")
+    M.replace_expr(g, lambda e: isinstance(e, ast.IfExp) and M.src_is(e.test, "scale == 1.0"), M.expr("len(selected) * sys.float_info.epsilon * capacity"))
+
+
+def _v_ks_slack_1e6(tree):
+    g = M.find_func(tree, "solve_knapsack")
+    M.replace_expr(g, lambda e: M.src_is(e, "sys.float_info.epsilon"), M.expr("1e-06"))
+
+
+def _t_ks_slack_n(tree):
+    g = M.find_func(tree, "solve_knapsack")
+    M.replace_expr(g, lambda e: M.src_is(e, "len(selected) * sys.float_info.epsilon * capacity"), M.expr("n * sys.float_info.epsilon * capacity"))
+
+
 VARIANTS = [
+    M.Variant("knapsack re-check with a fixed slack of 1e-9 (original defect: weight 10.0000000005 accepted for capacity 10)", KN, _v_ks_fixed_slack, "C16-O1"),
+    M.Variant("knapsack re-check slack applied to integral data as well", KN, _v_ks_slack_for_integers, "C16-O1"),
+    M.Variant("knapsack re-check slack of 1e-6 of the capacity per item", KN, _v_ks_slack_1e6, "C16-O1"),
+    M.Variant("twin: knapsack re-check slack scaled by the number of items instead of the number selected", KN, _t_ks_slack_n, None),
     M.Variant("rounding allowance applied to integral data as well (overfill of a unit from capacity 1e12)", BP, _v_allowance_for_integers_too, "C16-O3"),
     M.Variant("rounding allowance of n * 1e-12 of the capacity (the first repair: 0.5 and 0.5000000000001 share a bin of 1.0)", BP, _v_allowance_relative_1e6, "C16-O3"),
     M.Variant("no rounding allowance: [0.3, 0.3, 0.3, 0.1] needs two bins of 1.0 (original defect)", BP, _v_no_allowance, "C16-O3"),
